@@ -2,25 +2,18 @@ package main
 
 import (
 	"fmt"
-	"time"
 
 	"github.com/VolantMQ/vlapi/mqttp"
 )
 
 func init() {
 	subcmds["dbg"] = func(args []string) int {
-		b, _ := NewBroker(BrokerOpts{})
-		c := b.Dial()
-		_, err := c.Connect(ConnectOpts{ID: "a", Ver: mqttp.ProtocolV50, Clean: true})
-		fmt.Println(err)
-		raw, _ := c06Build(mqttp.ProtocolV50, c06Pkt{T: 10, ID: 45, NF: 2}, 1)
-		_ = c.SendRaw(raw)
-		time.Sleep(100 * time.Millisecond)
-		tmp := make([]byte, 100)
-		n, _ := c.conn.Read(tmp)
-		fmt.Println(tmp[:n])
-		p, _, err := mqttp.Decode(mqttp.ProtocolV50, tmp[:n])
-		fmt.Println(p, err)
+		for q := 0; q < 3; q++ {
+			raw, err := c06Build(mqttp.ProtocolV50, c06Pkt{T: 15, QoS: q}, 1)
+			fmt.Println(q, raw, err)
+		}
+		a := mqttp.NewAuth(mqttp.ProtocolV50)
+		fmt.Println(a.SetReasonCode(mqttp.CodeReAuthenticate))
 		return 0
 	}
 }
